@@ -148,6 +148,8 @@ def _worker(job):
         known = load_known(pid)
         col = Collector(mod, known)
         params = dict(mod.TIERS[tier])
+        if os.environ.get("VERIF_EXAMPLES"):
+            params["examples"] = int(os.environ["VERIF_EXAMPLES"])
         col.shrink_budget = float(params.get("shrink_seconds", 20 if tier == "quick" else 90))
         if kind in ("hyp", "alt"):
             _run_hypothesis(mod, col, params, seed, idx, n)
@@ -248,6 +250,50 @@ def _run_corpus(mod, col, pid):
             return
 
 
+def _run_fuzzers(pid, seed, runs, shards):
+    """runs pbt.fuzz in `shards` subprocesses; returns worker-style result dicts (empty list if atheris is unavailable)"""
+    import subprocess
+    env = dict(os.environ)
+    deps = os.path.join(ROOT, ".deps")
+    env["PYTHONPATH"] = os.pathsep.join([ROOT, deps, env.get("PYTHONPATH", "")])
+    probe = subprocess.run([sys.executable, "-c", "import atheris"], env=env, capture_output=True)
+    if probe.returncode != 0:
+        subprocess.run([sys.executable, "-m", "pip", "install", "-q", "--no-index", "--find-links", "/opt/veriftools/wheels",
+                        "--target", deps, "atheris"], capture_output=True)
+        if subprocess.run([sys.executable, "-c", "import atheris"], env=env, capture_output=True).returncode != 0:
+            sys.stderr.write("note: atheris not importable/installable, coverage-guided supplement skipped\n")
+            return []
+    os.makedirs(os.path.join(ROOT, ".cache"), exist_ok=True)
+    procs = []
+    for i in range(shards):
+        out = os.path.join(ROOT, ".cache", f"fuzz-{pid}-{os.getpid()}-{i}.json")
+        p = subprocess.Popen([sys.executable, "-m", "pbt.fuzz", pid, str(runs), str(seed * 1000 + 900 + i), out], cwd=ROOT, env=env,
+                             stdout=subprocess.DEVNULL, stderr=subprocess.DEVNULL)
+        procs.append((p, out))
+    res = []
+    for p, out in procs:
+        p.wait()
+        try:
+            with open(out) as f:
+                r = json.load(f)
+            os.unlink(out)
+        except Exception:
+            r = dict(evaluations=0, nontrivial=[], labels={}, inconclusive={}, known_hits={}, samples=[], failure=None,
+                     harness_error=f"fuzz shard wrote no result (exit {p.returncode})")
+        r["nontrivial"] = set(r["nontrivial"])
+        r["labels"] = Counter(r["labels"])
+        r["inconclusive"] = Counter(r["inconclusive"])
+        r["known_hits"] = Counter(r["known_hits"])
+        if p.returncode not in (0, 77, 78) and not r.get("failure") and not r.get("harness_error"):
+            r["harness_error"] = f"fuzz shard ended with exit code {p.returncode}"
+        res.append(r)
+    import shutil
+    for d in os.listdir(os.path.join(ROOT, ".cache")):
+        if d.startswith("fuzz-corpus-"):
+            shutil.rmtree(os.path.join(ROOT, ".cache", d), ignore_errors=True)
+    return res
+
+
 # ------------------------------------------------------------------ main
 
 def write_replay(pid, seed, tier, failure):
@@ -314,6 +360,7 @@ def main(argv=None):
         params["shards"] = args.shards
     if args.examples:
         params["examples"] = args.examples
+        os.environ["VERIF_EXAMPLES"] = str(args.examples)      # spawned (alternative-PPQN) workers re-import the module
     t0 = time.time()
     jobs = [("corpus", pid, tier, seed, 0, 1)]
     if hasattr(mod, "enumerate_cases"):
@@ -342,6 +389,12 @@ def main(argv=None):
         os.environ.pop("VERIF_PPQN", None)
         alt_jobs += batch
     jobs = jobs + alt_jobs
+    # coverage-guided supplement (atheris / libFuzzer through fuzz_one_input), thorough tier of selected properties
+    fuzz_runs = int(params.get("fuzz_runs", 0))
+    if fuzz_runs and not os.environ.get("VERIF_NO_FUZZ"):
+        fr = _run_fuzzers(pid, seed, fuzz_runs, int(params.get("fuzz_shards", 4)))
+        results += fr
+        jobs = jobs + [("fuzz", pid, tier, seed, 900 + i, len(fr)) for i in range(len(fr))]
 
     known = load_known(pid)
     evaluations = sum(r["evaluations"] for r in results)
@@ -380,6 +433,7 @@ def main(argv=None):
             known_finding_hits=dict(known_hits), corpus_cases=len(corpus_files(pid)),
             shards=len(jobs), shard_seeds=[seed * 1000 + j[4] for j in jobs if j[0] in ("hyp", "alt")],
             alt_ppqn=list(params.get("alt_ppqn", [])),
+            coverage_guided_runs=sum(1 for j in jobs if j[0] == "fuzz") * int(params.get("fuzz_runs", 0)),
             parameters={k: v for k, v in params.items()},
         ),
         assumptions=list(getattr(mod, "ASSUMPTIONS", [])),
